@@ -42,6 +42,9 @@ type c20Struct struct {
 type c20Case struct {
 	Structs []c20Struct `json:"structs"`
 	Args    []string    `json:"args"` // flags
+	// Messy: the source is not gofmt-formatted (wide indentation, runs of blank lines, trailing blanks), so
+	// the tool's output is shorter than its input
+	Messy bool `json:"messy,omitempty"`
 }
 
 var c20Types = []string{"int", "string", "[]byte", "float64", "bool", "[]string", "map[string]int", "*int", "uint32", "[]int", "int64"}
@@ -191,6 +194,7 @@ func genC20(t *rapid.T) c20Case {
 			names = append(names, s.Name)
 		}
 	}
+	c.Messy = rapid.IntRange(0, 5).Draw(t, "messy") == 0
 	for _, fl := range []string{"w", "json", "sql", "private"} {
 		switch rapid.IntRange(0, 2).Draw(t, "flag-"+fl) {
 		case 0:
@@ -258,6 +262,12 @@ func (c c20Case) render() string {
 	src, err := format.Source([]byte(b.String()))
 	if err != nil {
 		return b.String()
+	}
+	if c.Messy {
+		// tags never contain a tab or a newline, so this only touches layout
+		m := strings.ReplaceAll(string(src), "\t", "            ")
+		m = strings.ReplaceAll(m, "\n\n", "\n\n\n\n   \n")
+		return strings.ReplaceAll(m, "{\n", "{   \n")
 	}
 	return string(src)
 }
